@@ -461,6 +461,13 @@ func (e *Env) call(x *ast.CallExpr) Val {
 			if v, ok := e.builtin(id.Name, x); ok {
 				return v
 			}
+			if g := e.c.P.CS.GStates[id.Name]; g != nil {
+				k := e.eval(x.Args[0])
+				key, srt, rt := e.c.gstateKey(g)
+				_ = srt
+				h := e.c.heapGet(e.st, key, srt)
+				return Val{Typ: rt, L: []T{sel(sel(h, "1"), k.L[0])}}
+			}
 			if d := e.c.P.CS.Defs[e.pkgKey()+"."+id.Name]; d != nil {
 				return e.expand(d, x.Args)
 			}
@@ -712,6 +719,10 @@ func (e *Env) builtin(name string, x *ast.CallExpr) (Val, bool) {
 		if e.oldTop == "" {
 			e.fail("fresh() not available here")
 		}
+		// allocated after the old state and before now
+		if e.st != nil && e.st.top != "" {
+			return boolVal(and(gt(v.L[0], e.oldTop), le(v.L[0], e.st.top))), true
+		}
 		return boolVal(gt(v.L[0], e.oldTop)), true
 	case "loopold":
 		if e.loopPre == nil {
@@ -733,6 +744,9 @@ func (e *Env) builtin(name string, x *ast.CallExpr) (Val, bool) {
 			e.fail("loopfresh() outside a loop invariant")
 		}
 		v := e.eval(arg(0))
+		if e.st != nil && e.st.top != "" {
+			return boolVal(and(gt(v.L[0], e.loopPre.top), le(v.L[0], e.st.top))), true
+		}
 		return boolVal(gt(v.L[0], e.loopPre.top)), true
 	case "sameBacking":
 		a, b := e.eval(arg(0)), e.eval(arg(1))
@@ -986,6 +1000,18 @@ func (e *Env) designator0(x ast.Expr) []ModLoc {
 		all := false
 		if id, ok := x.Index.(*ast.Ident); ok && id.Name == "ALL" {
 			all = true
+		}
+		if id, ok := x.X.(*ast.Ident); ok {
+			if g := e.c.P.CS.GStates[id.Name]; g != nil {
+				key, srt, _ := e.c.gstateKey(g)
+				m := ModLoc{Key: key, Sort: srt, Ref: "1"}
+				if !all {
+					ne := *e
+					ne.guard = nil
+					m.HasIdx, m.Idx = true, ne.eval(x.Index).L[0]
+				}
+				return []ModLoc{m}
+			}
 		}
 		// x[*][*]: contents of every map held in the slice x
 		if inner, ok := x.X.(*ast.IndexExpr); ok && all {
@@ -1279,8 +1305,26 @@ func (e *Env) ufun(u *UFun, args []ast.Expr) Val {
 				ae.pkg = p.Pkg
 			}
 			c.trust("axiom (" + ax.Pkg + "): " + ax.Text)
-			c.sc.assume(ae.evalBool(ax.Expr))
+			c.sc.assumeG(ae.evalBool(ax.Expr))
 		}
 	}
 	return Val{Typ: rt, L: []T{app(name, ts...)}}
+}
+
+func specSort(t string) (string, types.Type) {
+	switch t {
+	case "string":
+		return sStr, tStr
+	case "bool":
+		return sBool, tBool
+	}
+	return sInt, tInt
+}
+
+// gstateKey: ghost state functions live in the heap as a two-level array at the
+// fixed pseudo-object 1 (so that havoc and frame machinery apply unchanged).
+func (c *Ctx) gstateKey(g *GState) (string, string, types.Type) {
+	ps, _ := specSort(g.Param)
+	rs, rt := specSort(g.Result)
+	return "gs:" + g.Name, arr(sInt, arr(ps, rs)), rt
 }
